@@ -18,7 +18,12 @@ Definition mfind (k : key) (m : list (key * cf)) : cf :=
   match find (fun e => key_eqb k (fst e)) m with Some e => snd e | None => (0%float, 0%float) end.
 Definition msub (a b : list (key * cf)) (tol : float) : bool :=
   forallb (fun e => cclose (tol * fmax 1 (fmax (abs (fst (snd e))) (abs (snd (snd e)))))%float (snd e) (mfind (fst e) b)) a.
-Definition map_close (a b : list (key * cf)) : bool := msub a b 0x1.19799812dea11p-40 && msub b a 0x1.19799812dea11p-40.
+(* a term may be omitted only when its coefficient is exactly zero: every key with a non-zero coefficient occurs on the other side *)
+Definition cnonzero (z : cf) : bool := negb (PrimFloat.eqb (fst z) 0) || negb (PrimFloat.eqb (snd z) 0).
+Definition keys_sub (a b : list (key * cf)) : bool :=
+  forallb (fun e => negb (cnonzero (snd e)) || existsb (fun f => key_eqb (fst e) (fst f)) b) a.
+Definition map_close (a b : list (key * cf)) : bool :=
+  msub a b 0x1.19799812dea11p-40 && msub b a 0x1.19799812dea11p-40 && keys_sub a b && keys_sub b a.
 
 Definition ps_exact (P Q : fps) : bool := ops_eqb (pops P) (pops Q) && cexact (pcoef P) (pcoef Q).
 Definition fn_of (l : list float) : N -> float := fun i => nth (N.to_nat i) l 0%float.
